@@ -1891,6 +1891,26 @@ class Emitter:
             for _, cn in sorted(ents, key=lambda x: x[0]):
                 ctor_calls.append('  %s();' % cn)
         funcs.append('void ir2c_global_ctors(void) {\n%s\n}' % '\n'.join(ctor_calls))
+        # ir2c_reset_nitro_statics(): put every MUTABLE static of nitro's own code (mangled name inside namespace nitro) back to its
+        # initial value -- used by the C09 "stale view" queries, in which every thread body is extracted from the initial state of the
+        # sink's own statics (= the interleaving in which all threads read that state before any of them writes it).  Statics whose
+        # initialisation the language makes thread-safe (a guard variable _ZGV<x> exists) and the guards themselves are left alone.
+        guarded = set('@_Z' + n[len('@_ZGV'):] for n in mod.globals if n.startswith('@_ZGV'))
+        resets = []
+        for name, g in mod.globals.items():
+            if g['external'] or g['init'] is None or g['const'] or name.startswith('@_ZGV') or name in guarded:
+                continue
+            if '5nitro' not in name or name.startswith(('@_ZTV', '@_ZTI', '@_ZTS')):
+                continue
+            t = g['type']
+            cn = s.gname(name)
+            if isinstance(t, ArrTy):
+                resets.append('  /* not reset (array): %s */' % cn)
+            elif isinstance(t, StructTy):
+                resets.append('  { %s = %s; %s = ir2c_tmp; }' % (s.decl(t, 'ir2c_tmp'), s.cinit(g['init']), cn))
+            else:
+                resets.append('  %s = %s;' % (cn, s.cinit(g['init'])))
+        funcs.append('void ir2c_reset_nitro_statics(void) {\n%s\n}' % '\n'.join(resets))
         # prototypes of plain-named (extern "C") defined functions, for harness mains
         s.exported = []
         for name, f in mod.funcs.items():
@@ -1968,7 +1988,7 @@ def main():
     open(sys.argv[2], 'w').write(c)
     if len(sys.argv) > 3:
         open(sys.argv[3], 'w').write('/* generated by ir2c: entry points in the exact generated C types */\n#include "ir2c_rt.h"\n'
-                                     + '\n'.join(em.exported) + '\nvoid ir2c_global_ctors(void);\n')
+                                     + '\n'.join(em.exported) + '\nvoid ir2c_global_ctors(void);\nvoid ir2c_reset_nitro_statics(void);\n')
     print('ir2c: %d types, %d globals, %d funcs -> %d lines of C' % (
         len(mod.types), len(mod.globals), len(mod.funcs), c.count('\n')), file=sys.stderr)
 
